@@ -83,16 +83,19 @@ def rule_pq(ctx):
         kw = kwargs(c)
         probs = []
         prog = kw.get('progeny')
-        # trace[o, i][0:sample_ploidy[i]]
-        try:
-            I = prog[1][2][1][1]
-        except Exception:
-            I = None
+        # trace[o, i][0:sample_ploidy[i]] (nested or as one index tuple)
+        def row_slice(t):
+            if t and t[0] == 'idx' and t[1][0] == 'idx' and t[1][2][0] == 'tuple' and len(t[1][2][1]) == 2:
+                return t[1][2][1][1], t[2]
+            if t and t[0] == 'idx' and t[2][0] == 'tuple' and len(t[2][1]) == 3:
+                return t[2][1][1], t[2][1][2]
+            return None, None
+        I = row_slice(prog)[0]
         if I is None:
             probs.append(f"progeny is {show(prog)[:80]}")
         else:
             def parent_idx(t):
-                return t[1][2][1][1] if t and t[0] == 'idx' and t[1][0] == 'idx' and t[1][2][0] == 'tuple' else None
+                return row_slice(t)[0]
             pairs = []
             if c[1].endswith('trio_valid'):
                 pairs = [('parent_p', 'tau_p', 'lambda_p', 0), ('parent_q', 'tau_q', 'lambda_q', 1)]
@@ -113,8 +116,8 @@ def rule_pq(ctx):
                     probs.append(f"{pn} is not the column-{k} parent")
                 # slice bound must be that parent's ploidy
                 par = kw.get(pn)
-                if par and par[0] == 'idx' and par[2] != ('slice', ('const', 0), ('idx', ('param', 'sample_ploidy'), P), None):
-                    probs.append(f"{pn} is sliced with {show(par[2])[:60]}")
+                if par and par[0] == 'idx' and row_slice(par)[1] != ('slice', ('const', 0), ('idx', ('param', 'sample_ploidy'), P), None):
+                    probs.append(f"{pn} is sliced with {show(row_slice(par)[1])[:60]}")
                 if kw.get(tn) != col('gamete_tau', I, k):
                     probs.append(f"{tn} is {show(kw.get(tn))[:60]}, expected gamete_tau[i, {k}]")
                 if kw.get(ln) != col('gamete_lambda', I, k):
